@@ -192,6 +192,12 @@ def matrix_clause(chk):
         if len(m) < 3:
             continue
         k = len(m)
+        if rng.random() < 0.15:
+            # distances derived as 1 - similarity: small non-zero self-distances on the diagonal
+            m = [list(r) for r in m]
+            for i_ in rng.sample(range(k), rng.randrange(1, k + 1)):
+                m[i_][i_] = rng.choice([0.02, 1e-9, 0.1])
+            chk.hist['matrix with non-zero self-distances'] += 1
         taxa = taxa_all[:k]
         fn = rng.choice(['flat:single', 'flat:complete', 'flat:upgma', 'flat:ward', 'flat_upgma', 'upgma', 'neighbor',
                          'fuzzy', 'matrix2tree', 'matrix2groups', 'mcl', 'link_clustering', '_cluster.flat', 'find_threshold',
